@@ -10,7 +10,8 @@ it walks the registry: per hook it bumps the hook's counter, unhooks a hook whos
 and otherwise calls it (synchronously, or by submitting to a worker pool for `pooled` hooks); the
 event's and the hook's `WithPreTriggerFunc` functions are called synchronously right before that.  The
 link hook that `LinkTo` installs on the target calls the source event's `Trigger` with the same
-argument.  `linkTo` unhooks the previous link hook before hooking the new target.
+argument (through the target's pool if the target has one: the nested trigger then runs
+asynchronously, `async`).  `linkTo` unhooks the previous link hook before hooking the new target.
 
 The machine is sequential and non-reentrant (callbacks only record their invocation); iteration
 under concurrent `Hook`/`Unhook` is the subject of `Hive/Model/EventsIter.lean`, the trigger counters
@@ -26,7 +27,8 @@ structure Hook where
   max : Nat                -- WithMaxTriggerCount, 0 = unlimited
   count : Nat              -- triggerCount
   fired : Nat              -- ghost: number of invocations
-  pooled : Bool
+  pool : Option Bool       -- WithWorkerPool on the hook: `some true` a pool, `some false` nil (forced in place),
+                           -- `none` no option (the event's pool, if any, is used)
   pre : Bool               -- WithPreTriggerFunc on the hook
   attached : Bool
 deriving Repr, DecidableEq
@@ -37,6 +39,7 @@ structure Ev where
   passed : Nat             -- ghost: triggers that passed the limit check
   link : Option Nat        -- key of `e.link`
   pre : Bool               -- WithPreTriggerFunc on the event
+  pooled : Bool            -- WithWorkerPool on the event
 deriving Repr, DecidableEq
 
 structure St where
@@ -61,8 +64,8 @@ structure Call where
 deriving Repr, DecidableEq
 
 inductive Op
-  | new (max : Nat) (pre : Bool)
-  | hook (e max : Nat) (pooled pre : Bool)
+  | new (max : Nat) (pre pooled : Bool)
+  | hook (e max : Nat) (pool : Option Bool) (pre : Bool)
   | unhook (h : Nat)
   | trigger (e a : Nat)
   | link (src tgt : Nat)
@@ -92,18 +95,30 @@ def detach (s : St) (k : Nat) : St :=
   | some h => setHook s k { h with attached := false }
   | none => s
 
-/-- The pre-trigger calls made right before hook `h` of event `e` is invoked with `a`. -/
-def preCalls (evPre : Bool) (e a : Nat) (h : Hook) : List Call :=
-  (if evPre then [⟨.preEv, e, a, false⟩] else []) ++ (if h.pre then [⟨.preHook, h.handle, a, false⟩] else [])
+/-- The pre-trigger calls made right before hook `h` of event `e` is invoked with `a` (`async`: the
+running `Trigger` was itself submitted to a pool, so everything it does happens in a worker). -/
+def preCalls (evPre async : Bool) (e a : Nat) (h : Hook) : List Call :=
+  (if evPre then [⟨.preEv, e, a, async⟩] else []) ++ (if h.pre then [⟨.preHook, h.handle, a, async⟩] else [])
 
 def evPreOf (s : St) (e : Nat) : Bool :=
   match s.evs[e]? with
   | some ev => ev.pre
   | none => false
 
+def evPooledOf (s : St) (e : Nat) : Bool :=
+  match s.evs[e]? with
+  | some ev => ev.pooled
+  | none => false
+
+/-- `hook.WorkerPool() != nil`: the hook's own setting, else the event's. -/
+def effPooled (evPooled : Bool) (h : Hook) : Bool :=
+  match h.pool with
+  | some b => b
+  | none => evPooled
+
 /-- The body of the `ForEach` consumer for the hook with key `k`. -/
-def visitKey (trigRec : St → Nat → Nat → St × List Call) (e a : Nat) (acc : St × List Call) (k : Nat) :
-    St × List Call :=
+def visitKey (trigRec : St → Nat → Nat → Bool → St × List Call) (e a : Nat) (async : Bool)
+    (acc : St × List Call) (k : Nat) : St × List Call :=
   match acc.1.hooks[k]? with
   | none => acc
   | some h =>
@@ -112,29 +127,31 @@ def visitKey (trigRec : St → Nat → Nat → St × List Call) (e a : Nat) (acc
       (setHook acc.1 k { h with count := h.count + 1, attached := false }, acc.2)
     else
       let s1 := setHook acc.1 k { h with count := h.count + 1, fired := h.fired + 1 }
-      let pres := preCalls (evPreOf acc.1 e) e a h
+      let pres := preCalls (evPreOf acc.1 e) async e a h
+      let p := async || effPooled (evPooledOf acc.1 e) h
       match h.link with
-      | some src => let r := trigRec s1 src a; (r.1, acc.2 ++ pres ++ r.2)
-      | none => (s1, acc.2 ++ pres ++ [⟨.call, h.handle, a, h.pooled⟩])
+      | some src => let r := trigRec s1 src a p; (r.1, acc.2 ++ pres ++ r.2)
+      | none => (s1, acc.2 ++ pres ++ [⟨.call, h.handle, a, p⟩])
 
-def trig : Nat → St → Nat → Nat → St × List Call
-  | 0, s, _, _ => (s, [])
-  | fuel + 1, s, e, a =>
+def trig : Nat → St → Nat → Nat → Bool → St × List Call
+  | 0, s, _, _, _ => (s, [])
+  | fuel + 1, s, e, a, async =>
     match s.evs[e]? with
     | none => (s, [])
     | some ev =>
       if exceeds ev.max (ev.count + 1) then (setEv s e { ev with count := ev.count + 1 }, [])
       else
-        (List.range s.hooks.length).foldl (visitKey (trig fuel) e a)
+        (List.range s.hooks.length).foldl (visitKey (trig fuel) e a async)
           (setEv s e { ev with count := ev.count + 1, passed := ev.passed + 1 }, [])
 
 def step (s : St) : Op → St × Out
-  | .new max pre =>
-    ({ s with evs := s.evs ++ [{ max := max, count := 0, passed := 0, link := none, pre := pre }] }, .ev s.evs.length)
-  | .hook e max pooled pre =>
+  | .new max pre pooled =>
+    ({ s with evs := s.evs ++ [{ max := max, count := 0, passed := 0, link := none, pre := pre, pooled := pooled }] },
+     .ev s.evs.length)
+  | .hook e max pool pre =>
     if e < s.evs.length then
       ({ s with hooks := s.hooks ++ [{ ev := e, handle := s.user.length, link := none, max := max, count := 0,
-                                        fired := 0, pooled := pooled, pre := pre, attached := true }],
+                                        fired := 0, pool := pool, pre := pre, attached := true }],
                 user := s.user ++ [s.hooks.length] }, .hk s.user.length)
     else (s, .bad)
   | .unhook h =>
@@ -143,7 +160,7 @@ def step (s : St) : Op → St × Out
     | none => (s, .bad)
   | .trigger e a =>
     if e < s.evs.length then
-      let r := trig (s.evs.length + 1) s e a
+      let r := trig (s.evs.length + 1) s e a false
       (r.1, .calls r.2)
     else (s, .bad)
   | .link src tgt =>
@@ -155,7 +172,7 @@ def step (s : St) : Op → St × Out
           | some k => detach s k
           | none => s
         ({ s1 with hooks := s1.hooks ++ [{ ev := tgt, handle := 0, link := some src, max := 0, count := 0, fired := 0,
-                                           pooled := false, pre := false, attached := true }],
+                                           pool := none, pre := false, attached := true }],
                    evs := s1.evs.set src { ev with link := some s1.hooks.length } }, .done)
       else (s, .bad)
   | .unlink src =>
@@ -183,13 +200,21 @@ def registry (s : St) (e : Nat) : List Hook := s.hooks.filter (fun h => h.ev == 
 /-! ## line protocol (`ev …`) -/
 open Hive.Proto
 
+/-- `sync`: no pool option on the hook (the event's pool applies), `pool`: own pool, `inplace`:
+`WithWorkerPool(nil)`. -/
+def parsePool : String → Option (Option Bool)
+  | "sync" => some none
+  | "pool" => some (some true)
+  | "inplace" => some (some false)
+  | _ => none
+
 def parseOp : List String → Option Op
-  | ["new", m] => m.toNat?.map (.new · false)
-  | ["new", m, "pre"] => m.toNat?.map (.new · true)
-  | ["hook", e, m, "sync"] => do pure (.hook (← e.toNat?) (← m.toNat?) false false)
-  | ["hook", e, m, "pool"] => do pure (.hook (← e.toNat?) (← m.toNat?) true false)
-  | ["hook", e, m, "sync", "pre"] => do pure (.hook (← e.toNat?) (← m.toNat?) false true)
-  | ["hook", e, m, "pool", "pre"] => do pure (.hook (← e.toNat?) (← m.toNat?) true true)
+  | ["new", m] => m.toNat?.map (.new · false false)
+  | ["new", m, "pre"] => m.toNat?.map (.new · true false)
+  | ["new", m, "pool"] => m.toNat?.map (.new · false true)
+  | ["new", m, "pre", "pool"] => m.toNat?.map (.new · true true)
+  | ["hook", e, m, k] => do pure (.hook (← e.toNat?) (← m.toNat?) (← parsePool k) false)
+  | ["hook", e, m, k, "pre"] => do pure (.hook (← e.toNat?) (← m.toNat?) (← parsePool k) true)
   | ["unhook", h] => h.toNat?.map .unhook
   | ["trigger", e, a] => do pure (.trigger (← e.toNat?) (← a.toNat?))
   | ["link", s, t] => do pure (.link (← s.toNat?) (← t.toNat?))
@@ -214,7 +239,12 @@ def showOut : Out → String
   | .done => "done"
   | .calls cs =>
     let sync := cs.filter (fun c => !c.pooled)
-    let pool := (cs.filter (fun c => c.pooled)).mergeSort (fun x y => x.handle ≤ y.handle)
+    let rank : Call → Nat := fun c => match c.kind with
+      | .call => 0
+      | .preEv => 1
+      | .preHook => 2
+    let pool := (cs.filter (fun c => c.pooled)).mergeSort
+      (fun x y => rank x < rank y || (rank x == rank y && x.handle ≤ y.handle))
     s!"sync {showCalls sync} pool {showCalls pool}"
   | .num n => toString n
   | .bad => "bad-op"
